@@ -1195,6 +1195,20 @@ impl<K, V, S> HashMap<K, V, S> {
     }
 }
 
+#[cfg(griddle_verif)]
+impl<K, V, S> HashMap<K, V, S> {
+    /// Snapshot of the two-table state, for external verification harnesses.
+    pub fn verif_state(&self) -> crate::verif::VerifState {
+        self.table.verif_state()
+    }
+
+    /// Calls `f(in_main, key, value)` for every element: the main table in its iteration order,
+    /// then what the cached iterator over the old table would still yield, in that order.
+    pub fn verif_for_each(&self, mut f: impl FnMut(bool, &K, &V)) {
+        self.table.verif_for_each(|in_main, (k, v)| f(in_main, k, v))
+    }
+}
+
 impl<K, V, S> PartialEq for HashMap<K, V, S>
 where
     K: Eq + Hash,
